@@ -455,6 +455,34 @@ func bulkCases(ctx *core.Ctx) []*PipeCase {
 	return cases
 }
 
+// lzwSweepCases: every prefix length of a few fixed byte strings through LZW
+// with both EarlyChange settings.  The number of emitted codes grows by at
+// most one per byte, so a dense sweep of lengths makes the code count land on
+// every value -- in particular exactly on each switch of the code length
+// (511/512, 1023/1024, 2047/2048 codes) and on the table-full clear code,
+// where the encoder's Close path and the decoder must agree on the width of
+// the EOD code.
+func lzwSweepCases(ctx *core.Ctx) []*PipeCase {
+	r := ctx.Rand("lzw-sweep")
+	var cases []*PipeCase
+	type sweep struct {
+		kind string
+		max  int
+	}
+	for _, sw := range []sweep{{"random", 4200}, {"pairs", 3000}, {"text", 3000}, {"runs", 3000}} {
+		d := GenBytes(r, sw.kind, sw.max)
+		for _, obo := range []bool{false, true} {
+			p := fl("LZW", 0, 0, 0, 0, obo)
+			for n := 0; n <= sw.max; n++ {
+				c := &PipeCase{Filters: []P{p}, Ver: 17, Via: "direct", Writes: []int{n}, ReadPat: []int{4096}, Origin: "lzw-sweep/" + sw.kind}
+				c.data = d[:n]
+				cases = append(cases, c)
+			}
+		}
+	}
+	return cases
+}
+
 // ---------------------------------------------------------------------------
 // executing and judging pipe cases
 
@@ -585,6 +613,9 @@ func replayCase(kind, key string, c any) map[string]any {
 }
 
 func (rp *reporter) pipe(c *PipeCase, rec *PipeRec) {
+	if c.DataHex == "" && len(c.Data()) > 0 {
+		c.SetData(c.Data()) // make the case replayable
+	}
 	sig := rec.Signature(c.Data())
 	key := fmt.Sprintf("pipe/%s/%s/%s", chainKey(c.Filters), c.Via, sig)
 	what := fmt.Sprintf("filter chain %s (PDF %d.%d, %s): %d bytes written in %d chunks do not come back (read %d bytes, %s) [%s]",
@@ -721,6 +752,7 @@ func run(ctx *core.Ctx) error {
 	cases := buildScheduleCases(ctx, sched)
 	nsched := len(cases)
 	cases = append(cases, bulkCases(ctx)...)
+	cases = append(cases, lzwSweepCases(ctx)...)
 	ncorpus := len(cases)
 	// CCITTFax corpus (independent of the seed) and seeded CCITT cases
 	type ccRef struct {
